@@ -116,37 +116,66 @@ def r191(ctx, fx):
 
 
 def r192(ctx, fx):
-    rid = ctx.rule("R19.2", "pause(): the read of the CPU's program counter happens while the state guard that covers the store of Stopped(pc) is live "
-                   "(the lock is taken first); next/step_in/step_out stop through pause after their step")
-    f = None
+    rid = ctx.rule("R19.2", "stopping and stepping happen under the running-state lock: the read of the CPU's program counter that is stored as Stopped(pc) happens while "
+                   "a state guard is live — in pause() itself, or in a helper every call of which is made with a state guard live; next/step_in/step_out hold "
+                   "a state guard while the CPU steps (as the machine thread does: a step that arrives while the machine runs freely must not slip in between the "
+                   "machine thread's look at the breakpoints and the instruction it executes next) and stop through pause() / that helper afterwards")
+    meth = {}
+    helpers = []
     for g in fx.all_fns("mos"):
-        if g.d.get("impl_self") == ADAPTER and g.d.get("impl_trait") == "mos::debugger::adapters::MachineAdapter" and g.path.endswith("::pause"):
-            f = g
+        if g.d.get("impl_self") != ADAPTER or g.kind == "closure" or not g.blocks:
+            continue
+        if g.d.get("impl_trait") == "mos::debugger::adapters::MachineAdapter":
+            meth[g.path.rsplit("::", 1)[-1]] = g
+        elif not g.d.get("impl_trait"):
+            calls = [lib.norm(lib.callee(t)[0] or "") for _, t in lib.calls(g)]
+            if any(c.endswith("get_program_counter") for c in calls) and any("MachineRunningState" in (l.get("ty") or "") and "&mut" in (l.get("ty") or "")
+                                                                              for l in g.locals[1:g.argc + 1]):
+                helpers.append(g)
+    f = meth.get("pause")
     if f is None:
         ctx.fail_closed(rid, "TestRunnerAdapter::pause not found")
         return
+    hp = {h.path for h in helpers}
+
+    def is_stop(c):
+        return c.endswith("::pause") or any(lib.norm(h) == c or c.endswith("::" + h.rsplit("::", 1)[-1]) for h in hp)
     at_term, guards = live_guards(f, STATE_GUARD)
     reads = [(bi, t) for bi, t in lib.calls(f) if lib.norm(lib.callee(t)[0] or "").endswith("get_program_counter")]
+    via = [(bi, t) for bi, t in lib.calls(f) if any(lib.norm(lib.callee(t)[0] or "").endswith("::" + h.rsplit("::", 1)[-1]) for h in hp)]
     key = "%s|pc-read" % f.path
-    ctx.inst(rid, key, sample={"pc_reads": len(reads), "state_guard_locals_in_pause": len(guards)})
-    if not reads:
-        ctx.fail_closed(rid, "pause() does not read the program counter")
-    for bi, t in reads:
+    ctx.inst(rid, key, sample={"pc_reads": len(reads), "through_helper": len(via), "state_guard_locals_in_pause": len(guards)})
+    if not reads and not via:
+        ctx.fail_closed(rid, "pause() neither reads the program counter nor calls a helper that does")
+    for bi, t in reads + via:
         if not at_term.get(bi):
             ctx.finding(rid, key, "pause() reads the program counter before taking the running-state lock and stores Stopped(pc) afterwards: the machine thread can "
                         "execute in between, so the reported frame is not where the machine is", "%s:%s" % (f.file, t.get("line")))
     for nm in ("next", "step_in", "step_out"):
-        g = [x for x in fx.all_fns("mos") if x.d.get("impl_self") == ADAPTER and x.d.get("impl_trait") == "mos::debugger::adapters::MachineAdapter" and x.path.endswith("::" + nm)]
+        g = meth.get(nm)
         k = "%s|%s-stops" % (ADAPTER, nm)
         ctx.inst(rid, k)
-        if len(g) != 1:
+        if g is None:
             ctx.fail_closed(rid, "%s not found" % nm)
             continue
-        calls = [lib.norm(lib.callee(t)[0] or "") for _, t in lib.calls(g[0])]
+        calls = [lib.norm(lib.callee(t)[0] or "") for _, t in lib.calls(g)]
         step = [i for i, c in enumerate(calls) if any(c.endswith(s.split("::")[1]) and "TestRunner" in c for s in STEP_FNS)]
-        pz = [i for i, c in enumerate(calls) if c.endswith("::pause")]
+        pz = [i for i, c in enumerate(calls) if is_stop(c)]
         if not step or not pz or min(pz) < max(step):
-            ctx.finding(rid, k, "%s must perform its step and then stop through pause()" % nm, g[0].where)
+            ctx.finding(rid, k, "%s must perform its step and then stop through pause()" % nm, g.where)
+        at, gs = live_guards(g, STATE_GUARD)
+        k2 = "%s|%s-steps-under-the-state-lock" % (ADAPTER, nm)
+        bare = [t.get("line") for bi, t in lib.calls(g) if any(lib.pm(lib.callee(t)[0], s) for s in STEP_FNS) and not at.get(bi)]
+        ctx.inst(rid, k2, sample={"method": nm, "state_guard_locals": len(gs), "steps_without_a_live_guard": len(bare)})
+        if bare:
+            ctx.finding(rid, k2, "%s advances the CPU without holding the running-state lock: sent while the machine runs freely, the step can execute between the "
+                        "machine thread's breakpoint test and its own step, which then executes an instruction it has not looked at — a breakpoint there is run "
+                        "over" % nm, "%s:%s" % (g.file, bare[0]))
+        # the helper is called with the guard still live
+        for bi, t in lib.calls(g):
+            if any(lib.norm(lib.callee(t)[0] or "").endswith("::" + h.rsplit("::", 1)[-1]) for h in hp) and not at.get(bi):
+                ctx.finding(rid, k + "|helper-without-guard", "%s stores Stopped(pc) through a helper without holding the running-state lock" % nm,
+                            "%s:%s" % (g.file, t.get("line")))
 
 
 def r193(ctx, fx):
